@@ -321,6 +321,17 @@ struct World {
         } else if (m == "fctor") {
             rootf = new (rootbuf) cocls::future<T>(*rootobj);
             subscribe_cb();
+        } else if (m == "poolrun") {
+            // the body of thread_pool::run(async<T>&), thread_pool.h:289-299, with run_detached replaced by
+            // "a fresh thread runs the closure and destroys it"
+            rootf = new (rootbuf) cocls::future<T>([&](auto promise) {
+                auto closure = [fn = cocls::async<T>(std::move(*rootobj)), promise = std::move(promise)]() mutable {
+                    fn.start(promise);
+                };
+                std::thread th([c = std::move(closure)]() mutable { c(); });
+                th.join();
+            });
+            subscribe_cb();
         } else if (m == "retfut") {
             rootf = new (rootbuf) cocls::future<T>(body_fut<T>(*this, 1, Guard<T>(*this, 1)));
             subscribe_cb();
